@@ -13,9 +13,9 @@ def _cond(api, e, rel):
         if isinstance(f.value, ast.Name) and f.value.id == "args":
             if f.attr != "has_option_token":
                 raise api.P.Untranslatable("%s:%d: switch looked up with args.%s, not has_option_token" % (rel, e.lineno, f.attr))
-            if len(e.args) == 1 and isinstance(e.args[0], ast.Constant) and isinstance(e.args[0].value, str):
+            if len(e.args) == 1 and not e.keywords and isinstance(e.args[0], ast.Constant) and isinstance(e.args[0].value, str):
                 return "has %s.toList" % api.lean_str(e.args[0].value)
-        if isinstance(f.value, ast.Name) and f.value.id == "self" and f.attr == "is_debug" and not e.args:
+        if isinstance(f.value, ast.Name) and f.value.id == "self" and f.attr == "is_debug" and not e.args and not e.keywords:
             return "debug"
     raise api.P.Untranslatable("%s:%s: test outside the translated subset: %s" % (rel, getattr(e, "lineno", "?"), ast.dump(e)[:120]))
 
@@ -37,67 +37,141 @@ def _is_call_on(stmt, obj, meth):
             and stmt.value.func.attr == meth)
 
 
-def generate(api):
-    tree, rel = api.parse("config/default_application_config.py")
-    fn = api.P.find_function(tree, "DefaultApplicationConfig", "create_io", rel)
-    ansi = verb = quiet = inter = None
-    for st in fn.body:
-        if not isinstance(st, ast.If):
-            continue
-        chain, els = _chain(st)
-        src = ast.dump(st)
-        if "PlainFormatter" in src and "AnsiFormatter" in src:
-            # formatter selection: which branch builds a plain / a forced ANSI formatter
-            parts = []
-            for test, body in chain:
-                b = ast.dump(ast.Module(body=body, type_ignores=[]))
-                if "AnsiFormatter" in b and "Constant(value=True)" in b and "PlainFormatter" not in b:
-                    mode = ".forced"
-                elif "PlainFormatter" in b and "AnsiFormatter" not in b:
-                    mode = ".off"
-                else:
-                    raise api.P.Untranslatable("%s:%d: formatter branch not understood" % (rel, test.lineno))
-                parts.append("if %s then %s" % (_cond(api, test, rel), mode))
-            e = ast.dump(ast.Module(body=els, type_ignores=[]))
-            if not ("supports_ansi" in e and "AnsiFormatter" in e and "PlainFormatter" in e):
-                raise api.P.Untranslatable("%s: the default formatter branch does not follow the stream capability" % rel)
-            ansi = " else ".join(parts) + " else .auto"
-        elif all(len(b) == 1 and _is_call_on(b[0], "io", "set_verbosity") for _, b in chain) and not els:
-            parts = []
-            for test, body in chain:
-                lvl = body[0].value.args[0]
-                if not isinstance(lvl, ast.Name):
-                    raise api.P.Untranslatable("%s:%d: verbosity level is not a named constant" % (rel, test.lineno))
-                parts.append("if %s then IOFlags.%s" % (_cond(api, test, rel), lvl.id))
-            verb = " else ".join(parts) + " else IOFlags.NORMAL"
-        elif len(chain) == 1 and not els and len(st.body) == 1 and _is_call_on(st.body[0], "io", "set_quiet"):
-            arg = st.body[0].value.args[0]
-            if not (isinstance(arg, ast.Constant) and arg.value is True):
-                raise api.P.Untranslatable("%s: set_quiet argument" % rel)
-            quiet = _cond(api, st.test, rel)
-        elif len(chain) == 1 and not els and len(st.body) == 1 and _is_call_on(st.body[0], "io", "set_interactive"):
-            arg = st.body[0].value.args[0]
-            if not (isinstance(arg, ast.Constant) and arg.value is False):
-                raise api.P.Untranslatable("%s: set_interactive argument" % rel)
-            inter = _cond(api, st.test, rel)
-    if None in (ansi, verb, quiet, inter):
-        raise api.P.Untranslatable("%s: create_io no longer has the four switch decisions (ansi=%s verbosity=%s quiet=%s interaction=%s)"
-                                   % (rel, ansi is not None, verb is not None, quiet is not None, inter is not None))
-    # help listener
-    fh = api.P.find_function(tree, "DefaultApplicationConfig", "resolve_help_command", rel)
-    help_if = [s for s in fh.body if isinstance(s, ast.If)]
-    if len(help_if) != 1 or "set_resolved_command" not in ast.dump(help_if[0]) or "stop_propagation" not in ast.dump(help_if[0]):
-        raise api.P.Untranslatable("%s: resolve_help_command changed shape" % rel)
-    help_c = _cond(api, help_if[0].test, rel)
-    # version listener: event.args.is_option_set("version")
-    fv = api.P.find_function(tree, "DefaultApplicationConfig", "print_version", rel)
-    v_if = [s for s in fv.body if isinstance(s, ast.If)]
-    ok = (len(v_if) == 1 and isinstance(v_if[0].test, ast.Call) and isinstance(v_if[0].test.func, ast.Attribute)
-          and v_if[0].test.func.attr == "is_option_set" and len(v_if[0].test.args) == 1
-          and isinstance(v_if[0].test.args[0], ast.Constant) and "handled" in ast.dump(v_if[0]))
+CONCERNED = ("args", "io", "self", "output_formatter", "error_formatter", "AnsiFormatter", "PlainFormatter")
+
+
+def _switch(api, st, rel, obj, meth, want):
+    """`if <cond>: <obj>.<meth>(<want>)` with nothing else -> the condition"""
+    ok = (not st.orelse and len(st.body) == 1 and _is_call_on(st.body[0], obj, meth)
+          and len(st.body[0].value.args) == 1 and not st.body[0].value.keywords
+          and isinstance(st.body[0].value.args[0], ast.Constant) and st.body[0].value.args[0].value is want)
     if not ok:
-        raise api.P.Untranslatable("%s: print_version changed shape" % rel)
-    version_opt = v_if[0].test.args[0].value
+        raise api.P.Untranslatable("%s:%d: expected `if <switches>: %s.%s(%s)` and nothing else" % (rel, st.lineno, obj, meth, want))
+    return _cond(api, st.test, rel)
+
+
+def _create_io(api, tree, rel):
+    """Every statement of create_io is accounted for: statements that mention none of `args`, `io`, `self`, the
+    formatter variables and classes (and do not leave the function) are not concerned; the others must be, in this
+    order, the formatter selection, the construction of `io`, then each of the three switch decisions exactly once,
+    then `return io`."""
+    P = api.P
+    U = P.Untranslatable
+    fn = P.inline_literals(P.find_function(tree, "DefaultApplicationConfig", "create_io", rel), tree, "DefaultApplicationConfig")
+    params = [a.arg for a in fn.args.args]
+    if params[:3] != ["self", "application", "args"] or fn.args.vararg or fn.args.kwarg:
+        raise U("%s:%d: create_io(self, application, args, ...) expected" % (rel, fn.lineno))
+    ansi = verb = quiet = inter = None
+    stage = 0  # 0: before the formatter selection, 1: before `io = ...`, 2: switches, 3: after `return io`
+    for st in P.strip_doc(fn.body):
+        if not P.mentions(st, names=CONCERNED) and not P.exits(st):
+            continue
+        if stage == 0 and isinstance(st, ast.If):
+            chain, els = _chain(st)
+            parts = []
+            for test, body in chain:
+                text = ast.unparse(ast.Module(body=body, type_ignores=[]))
+                if text == "output_formatter = error_formatter = PlainFormatter(style_set)":
+                    mode = ".off"
+                elif text == "output_formatter = error_formatter = AnsiFormatter(style_set, True)":
+                    mode = ".forced"
+                else:
+                    raise U("%s:%d: formatter branch not understood: expected both formatters = PlainFormatter(style_set) "
+                            "or AnsiFormatter(style_set, True)" % (rel, test.lineno))
+                parts.append("if %s then %s" % (_cond(api, test, rel), mode))
+            want = "\n".join("if %s_stream.supports_ansi():\n    %s_formatter = AnsiFormatter(style_set)\n"
+                             "else:\n    %s_formatter = PlainFormatter(style_set)" % (x, x, x) for x in ("output", "error"))
+            if ast.unparse(ast.Module(body=els, type_ignores=[])) != ast.unparse(ast.parse(want)):
+                raise U("%s:%d: the default formatter branch does not follow the stream capability in the modelled way"
+                        % (rel, st.lineno))
+            ansi = " else ".join(parts) + " else .auto"
+            stage = 1
+        elif stage == 1 and ast.unparse(st) == ("io = self.io_class(Input(input_stream), Output(output_stream, output_formatter), "
+                                                "Output(error_stream, error_formatter))"):
+            stage = 2
+        elif stage == 2 and isinstance(st, ast.If) and st.body and _is_call_on(st.body[0], "io", "set_verbosity") and verb is None:
+            chain, els = _chain(st)
+            parts = []
+            for test, body in chain:
+                ok = (len(body) == 1 and _is_call_on(body[0], "io", "set_verbosity") and len(body[0].value.args) == 1
+                      and not body[0].value.keywords)
+                lvl = body[0].value.args[0] if ok else None
+                # the level is a flag constant imported from clikit.api.io.flags (read through to its number by the
+                # module-literal pass only if it were defined here; as an import it stays a name)
+                if not (ok and isinstance(lvl, ast.Name)):
+                    raise U("%s:%d: expected `io.set_verbosity(<named level>)` and nothing else" % (rel, test.lineno))
+                P.imported_as(tree, lvl.id, ("clikit.api.io.flags", "clikit.api.io"), rel)
+                parts.append("if %s then IOFlags.%s" % (_cond(api, test, rel), lvl.id))
+            if els:
+                raise U("%s:%d: the verbosity chain has an else branch" % (rel, st.lineno))
+            verb = " else ".join(parts) + " else IOFlags.NORMAL"
+        elif stage == 2 and isinstance(st, ast.If) and st.body and _is_call_on(st.body[0], "io", "set_quiet") and quiet is None:
+            quiet = _switch(api, st, rel, "io", "set_quiet", True)
+        elif stage == 2 and isinstance(st, ast.If) and st.body and _is_call_on(st.body[0], "io", "set_interactive") and inter is None:
+            inter = _switch(api, st, rel, "io", "set_interactive", False)
+        elif stage == 2 and ast.unparse(st) == "return io" and None not in (verb, quiet, inter):
+            stage = 3
+        else:
+            raise U("%s:%d: create_io: statement not understood here: `%s`" % (rel, st.lineno, ast.unparse(st).split("\n")[0][:80]))
+    if stage != 3:
+        raise U("%s: create_io no longer has the four switch decisions followed by `return io` (ansi=%s verbosity=%s quiet=%s interaction=%s)"
+                % (rel, ansi is not None, verb is not None, quiet is not None, inter is not None))
+    for name in ("AnsiFormatter", "PlainFormatter"):
+        P.imported_as(tree, name, ("clikit.formatter",), rel)
+    return ansi, verb, quiet, inter
+
+
+def generate(api):
+    P = api.P
+    tree, rel = api.parse("config/default_application_config.py")
+    ansi, verb, quiet, inter = _create_io(api, tree, rel)
+    # help listener: `args = event.raw_args`, then one `if <switches>:` that sets the resolved command and stops
+    fh = P.inline_literals(P.find_function(tree, "DefaultApplicationConfig", "resolve_help_command", rel), tree,
+                           "DefaultApplicationConfig")
+    if [a.arg for a in fh.args.args][:2] != ["self", "event"]:
+        raise P.Untranslatable("%s:%d: resolve_help_command(self, event, ...) expected" % (rel, fh.lineno))
+    th = P.Template("""
+        STMTS_pre
+        args = event.raw_args
+        STMTS_mid
+        if HOLE_test:
+            STMTS_a
+            event.set_resolved_command(HOLE_resolved)
+            STMTS_b
+            event.stop_propagation()
+    """)
+
+    def aside(st):
+        # not concerned: does not touch `args` / `self`, does not leave, and reads at most a plain attribute of the event
+        if P.mentions(st, names=("args", "self")) or P.exits(st):
+            return False
+        return not P.mentions(st, names=("event",)) or (
+            isinstance(st, ast.Assign) and len(st.targets) == 1 and isinstance(st.targets[0], ast.Name)
+            and st.targets[0].id != "event" and isinstance(st.value, ast.Attribute)
+            and isinstance(st.value.value, ast.Name) and st.value.value.id == "event")
+    th.preds["pre"] = th.preds["mid"] = aside
+    # inside the branch the resolved command is built from `args`; only `event` must not be touched
+    th.preds["a"] = th.preds["b"] = lambda st: not P.mentions(st, names=("event",)) and not P.exits(st)
+    bh = th.match(fh.body, rel, "resolve_help_command")
+    help_c = _cond(api, bh["test"], rel)
+    # version listener: event.args.is_option_set("version")
+    fv = P.inline_literals(P.find_function(tree, "DefaultApplicationConfig", "print_version", rel), tree,
+                           "DefaultApplicationConfig")
+    if [a.arg for a in fv.args.args][:2] != ["self", "event"]:
+        raise P.Untranslatable("%s:%d: print_version(self, event, ...) expected" % (rel, fv.lineno))
+    tv = P.Template("""
+        if event.args.is_option_set(CONST_opt):
+            STMTS_a
+            event.handled(True)
+    """, preds={"a": lambda st: not P.exits(st) and not any(
+        isinstance(n, ast.Attribute) and n.attr in ("handled", "args", "stop_propagation") for n in ast.walk(st))})
+    try:
+        bv = tv.match(fv.body, rel, "print_version")
+    except P.Untranslatable as e:
+        raise P.Untranslatable("%s: print_version changed shape (%s)" % (rel, e))
+    version_opt = bv["opt"].value
+    if not isinstance(version_opt, str):
+        raise P.Untranslatable("%s: print_version: option name is not a string" % rel)
     text = (api.HEADER + "import Clikit.Gen.Consts\nnamespace Clikit.Gen.C09\n\n"
             "inductive AnsiMode where\n  | off | forced | auto\n  deriving DecidableEq, Repr, Inhabited\n\n"
             "/-- formatter selection of `create_io` -/\n"
